@@ -58,6 +58,11 @@ def run(ctx):
     rule4(ctx, prog, flows)
     rule5(ctx, prog, flows, effects)
     rule6(ctx, prog, flows)
+    rule7(ctx, prog, flows)
+    from graphrules import adjacency_name_maps_only_keyed
+
+    adjacency_name_maps_only_keyed(ctx, prog, flows, "R-C02-8", ("graph::query", "graph::degree", "graph::convert", "graph::subgraph", "graph::density", "graph::ensure", "graph::matrix"),
+                                   "so a query that enumerates them answers from a different node list than get_all_nodes()", floor=4)
 
 
 # ---------------------------------------------------------------------------------------- R-C02-1
@@ -405,6 +410,38 @@ def rule6(ctx, prog, flows):
     from graphrules import adjacency_entries_only_for_new_nodes
 
     adjacency_entries_only_for_new_nodes(ctx, prog, flows, "R-C02-6", "so `%s` no longer agrees with the edge stores (successor / predecessor queries lose edges that get_all_edges still lists)")
+
+
+ORDER_KEEPING = ("iter", "map", "cloned", "copied", "collect", "into_iter", "clone", "to_vec", "as_slice", "deref", "as_ref", "from_iter", "to_owned", "into", "borrow")
+
+
+def node_list_accessors_in_store_order(prog, flows):
+    """{accessor short name: (ok, offending callee names, span)} for the accessors that list the nodes"""
+    out = {}
+    for sfx in ("Graph::get_all_nodes", "Graph::get_all_node_names"):
+        b = prog.one(sfx)
+        sl = flows.slice(b.path, [("L", 0)], up=False, down="clos", data_only=True)
+        calls = set()
+        srcs = set()
+        for (bp, n) in sl:
+            if n[0] == "CALL":
+                t = prog.bodies[bp].blocks[n[1]].term
+                if t.callee:
+                    calls.add(t.callee.short.split("::")[-1])
+            elif n[0] == "SRC":
+                srcs.add(".".join(f for f in n[2] if f != "*").split(".")[0])
+        bad = sorted(c for c in calls if c not in ORDER_KEEPING)
+        out[sfx.split("::")[-1]] = ("nodes_vec" in srcs and not bad, bad, sorted(srcs), b)
+    return out
+
+
+def rule7(ctx, prog, flows):
+    ctx.rule("R-C02-7", "the accessors that list the nodes return the position-ordered store as it is (element i is the node at position i)")
+    from mir import loc_str
+
+    for nm, (ok, bad, srcs, b) in sorted(node_list_accessors_in_store_order(prog, flows).items()):
+        ctx.require(ok, "R-C02-7", "store-order|" + nm, "%s = nodes_vec in store order (one-to-one adaptors only)" % nm,
+                    "%s does not return nodes_vec in store order (reads %s, passes through %s): element i is no longer the node that get_node_by_index(i) / get_node_index(name) == i refer to, so the node list and the name<->position lookups describe different lists" % (nm, srcs, bad), loc_str(b.span))
 
 
 def run_once(ctx):
